@@ -72,7 +72,8 @@ def run_case(case) -> Outcome:
             p = int(period)
         else:
             p = float(period)
-        wrapped = throttle(limit=limit, period=p)(fn)
+        # the bare decorator form uses the documented defaults limit=1, period=1 second
+        wrapped = throttle(fn) if form == "bare" else throttle(limit=limit, period=p)(fn)
 
         async def caller(i):
             if calls[i]["a"] > 0:
@@ -176,6 +177,8 @@ def strategy(tier):
         limit = draw(st.integers(1, 4))
         period = draw(st.sampled_from([0.5, 1.0, 2.5]))
         form = draw(st.sampled_from(["float", "timedelta", "float", "int"] if period == 1.0 else ["float", "timedelta"]))
+        if draw(st.integers(0, 9)) == 0:
+            limit, period, form = 1, 1.0, "bare"
         n = draw(st.integers(1, 12))
         shape = draw(st.sampled_from(["burst", "steady", "boundary", "free"]))
         grid = lambda lo, hi: st.integers(lo, hi).map(lambda k: k / 8)  # noqa: E731
